@@ -1343,6 +1343,15 @@ class TimePoint:
         second_of_day += self._hour_of_day * CALENDAR.SECONDS_IN_HOUR
         return second_of_day
 
+    def _get_end_of_day_normalised(self) -> "TimePoint":
+        """Return this TimePoint, or a copy with 24:00 (end of day)
+        re-expressed as 00:00 of the next day."""
+        if self._truncated or self._hour_of_day != CALENDAR.HOURS_IN_DAY:
+            return self
+        new = self._copy()
+        new._tick_over()
+        return new
+
     def get_time_zone_utc(self) -> bool:
         # FIXME: Misleading name
         """Return whether the time zone is explicitly in UTC."""
@@ -1380,6 +1389,10 @@ class TimePoint:
             dest_time_zone (TimeZone): The new time zone (a TimeZone instance).
         """
         if dest_time_zone._unknown:
+            return self
+        if (not self._time_zone._unknown and
+                dest_time_zone._hours == self._time_zone._hours and
+                dest_time_zone._minutes == self._time_zone._minutes):
             return self
         new = self + (dest_time_zone - self._time_zone)
         new._time_zone = dest_time_zone
@@ -1491,7 +1504,7 @@ class TimePoint:
                       minute_of_hour=None, second_of_minute=None):
         """Returns a copy of this TimePoint with truncated time properties
         added to it."""
-        new = self._copy()
+        new = self._get_end_of_day_normalised()._copy()
         if hour_of_day is not None and minute_of_hour is None:
             minute_of_hour = 0
         if ((hour_of_day is not None or minute_of_hour is not None) and
@@ -1565,7 +1578,7 @@ class TimePoint:
         duration = other
         if duration.get_is_in_weeks():
             duration = duration.to_days()
-        new = self._copy()
+        new = self._get_end_of_day_normalised()._copy()
         if duration._seconds:
             if new._second_of_minute is None:
                 if new._minute_of_hour is None:
@@ -1647,7 +1660,7 @@ class TimePoint:
             # TODO: Convert truncated TimePoints to UTC when not buggy
             return hash(
                 tuple(getattr(self, attr) for attr in self.__slots__))
-        point = self.to_utc()
+        point = self.to_utc()._get_end_of_day_normalised()
         return hash((*point.get_calendar_date(),
                      *point.get_hour_minute_second()))
 
@@ -1674,7 +1687,9 @@ class TimePoint:
                 if self_attr != other_attr:
                     return _operator_map[op](self_attr, other_attr)
             return True
-        other = other.to_time_zone(self._time_zone)
+        other = other.to_time_zone(
+            self._time_zone)._get_end_of_day_normalised()
+        self = self._get_end_of_day_normalised()
         if self.get_is_calendar_date():
             my_date = self.get_calendar_date()
             other_date = other.get_calendar_date()
@@ -1704,7 +1719,9 @@ class TimePoint:
         if isinstance(other, TimePoint):
             if other > self:
                 return -1 * (other - self)
-            other = other.to_time_zone(self._time_zone)
+            other = other.to_time_zone(
+                self._time_zone)._get_end_of_day_normalised()
+            self = self._get_end_of_day_normalised()
             my_year, my_day_of_year = self.get_ordinal_date()
             other_year, other_day_of_year = other.get_ordinal_date()
             diff_day = my_day_of_year - other_day_of_year
